@@ -133,6 +133,13 @@ def generate(prop, seed, tier):
         # integer-valued fixed values (as in the predefined models: f_delta=5, f_gamma=0)
         for p in fixed_names:
             truth[p] = float(round(truth[p])) if round(truth[p]) >= ranges[p][0] else truth[p]
+    # falsy-but-legal fixed values: exactly 0 (int or float) where the family admits it, together
+    # with an ordinary (ignored) plain value for the same parameter
+    zero_ok = [p for p in fixed_names if ranges[p][0] <= 0 <= ranges[p][1]]
+    force_plain = None
+    if zero_ok and S.chance(0.25):
+        force_plain = S.pick(zero_ok)
+        truth[force_plain] = 0 if S.chance(0.5) else 0.0
     fixed = {p: truth[p] for p in fixed_names}
     # constructor also receives (ignored) plain values for fixed names sometimes
     ctor_plain = {}
@@ -140,6 +147,8 @@ def generate(prop, seed, tier):
         for p in names:
             if S.chance(0.5):
                 ctor_plain[p] = core.r6(S.uni(*ranges[p]))
+    if force_plain is not None:
+        ctor_plain[force_plain] = core.r6(S.uni(max(ranges[force_plain][0], 0.2), ranges[force_plain][1]))
     scen = {"engine": NAME, "property": prop, "seed": seed, "family": fam, "fixed": fixed, "ctor_plain": ctor_plain, "truth": truth, "conditional": conditional, "ops": []}
     n_ops = S.int(2, 6)
     lsq_ok = fam == "ExpWeibull" and fixed_names == ["delta"]
